@@ -1214,6 +1214,108 @@ def _bincount(x, weights=None, minlength=0):
     return wrap(out, rnp.float64)
 
 
+def _repeat(a, repeats, axis=None):
+    """numpy.repeat with (possibly symbolic) counts: the counts are needed as Python ints,
+    so symbolic ones are case split (complete when the path condition bounds them)"""
+    a = to_sarr(a)
+    p = _plain(a)
+    if isinstance(repeats, (SNum, int, rnp.integer)):
+        cnt = [int(repeats.__index__() if isinstance(repeats, SNum) else repeats)]
+    else:
+        r = _plain(to_sarr(repeats)).reshape(-1)
+        cnt = [int(e.__index__()) if isinstance(e, SNum) else int(e) for e in r]
+    if any(c < 0 for c in cnt):
+        raise core.modelled(ValueError("repeats may not contain negative values."))
+    if axis is None:
+        p = p.reshape(-1)
+        axis = 0
+    n = p.shape[axis]
+    if len(cnt) == 1:
+        cnt = cnt * n
+    if len(cnt) != n:
+        raise core.modelled(ValueError("operands could not be broadcast together with shape (%d,) (%d,)" % (n, len(cnt))))
+    idx = [i for i in range(n) for _ in range(cnt[i])]
+    out = rnp.take(p, rnp.array(idx, dtype=rnp.intp), axis=axis) if idx else rnp.take(p, rnp.array([], dtype=rnp.intp), axis=axis)
+    return wrap(out.astype(object), a.ldt)
+
+
+def _take(a, indices, axis=None):
+    """numpy.take with concrete indices along one axis of a (possibly symbolic) array"""
+    a = to_sarr(a)
+    idx = _concrete_index(indices) if isinstance(indices, SArr) else rnp.asarray(indices)
+    p = _plain(a)
+    r = rnp.take(p, rnp.asarray(idx, dtype=rnp.intp), axis=axis)
+    return wrap(r, a.ldt) if isinstance(r, _ND) else r
+
+
+def _strides_of(dims):
+    st = []
+    acc = 1
+    for d in reversed(list(dims)):
+        st.append(acc)
+        acc *= int(d)
+    return list(reversed(st)), acc
+
+
+def _ravel_multi_index(multi_index, dims, mode="raise", order="C"):
+    """numpy.ravel_multi_index, C order, mode='raise': definitional semantics"""
+    if mode != "raise" or order != "C":
+        raise Unsupported("ravel_multi_index mode/order")
+    dims = [int(d) for d in dims]
+    cols = [_plain(to_sarr(m)) for m in (multi_index if isinstance(multi_index, (tuple, list)) else list(to_sarr(multi_index)))]
+    if len(cols) != len(dims):
+        raise core.modelled(ValueError("parameter multi_index must be a sequence of length %d" % len(dims)))
+    st, _ = _strides_of(dims)
+    shape = rnp.broadcast_shapes(*[c.shape for c in cols])
+    cols = [rnp.broadcast_to(c, shape) for c in cols]
+    out = rnp.empty(shape, dtype=object)
+    for pos in rnp.ndindex(shape):
+        tot = 0
+        for c, d, k in zip(cols, dims, st):
+            i = c[pos]
+            if not bool(sand(i >= 0, i < d)):
+                raise core.modelled(ValueError("invalid entry in coordinates array"))
+            tot = tot + i * k
+        out[pos] = tot
+    return wrap(out, rnp.int64) if shape != () else out[()]
+
+
+def _unravel_index(indices, shape, order="C"):
+    """numpy.unravel_index, C order: definitional semantics (tuple of arrays)"""
+    if order != "C":
+        raise Unsupported("unravel_index order")
+    dims = [int(d) for d in shape]
+    st, total = _strides_of(dims)
+    p = _plain(to_sarr(indices))
+    outs = [rnp.empty(p.shape, dtype=object) for _ in dims]
+    for pos in rnp.ndindex(p.shape):
+        i = p[pos]
+        if not bool(sand(i >= 0, i < total)):
+            raise core.modelled(ValueError("index is out of bounds for array with size %d" % total))
+        for o, d, k in zip(outs, dims, st):
+            o[pos] = (i // k) % d
+    return tuple(wrap(o, rnp.int64) for o in outs)
+
+
+def _cumsum(a, axis=None):
+    a = to_sarr(a)
+    p = _plain(a)
+    if axis is None:
+        p = p.reshape(-1)
+        axis = 0
+    out = p.copy()
+    idx = [slice(None)] * p.ndim
+    prev = [slice(None)] * p.ndim
+    for i in range(1, p.shape[axis]):
+        idx[axis] = i
+        prev[axis] = i - 1
+        out[tuple(idx)] = out[tuple(prev)] + p[tuple(idx)]
+    ldt = a.ldt
+    if ldt is not None and ldt.kind == "b":
+        ldt = rnp.dtype("int64")
+    return wrap(out, ldt)
+
+
 def _lexsort(keys, axis=-1):
     keys = [to_sarr(k) for k in keys]
     n = keys[0].shape[0]
@@ -1267,6 +1369,11 @@ HANDLED = {
     rnp.flatnonzero: _flatnonzero,
     rnp.bincount: _bincount,
     rnp.lexsort: _lexsort,
+    rnp.take: lambda a, indices, axis=None, out=None, mode="raise": _take(a, indices, axis),
+    rnp.repeat: lambda a, repeats, axis=None: _repeat(a, repeats, axis),
+    rnp.ravel_multi_index: lambda multi_index, dims, mode="raise", order="C": _ravel_multi_index(multi_index, dims, mode, order),
+    rnp.unravel_index: lambda indices, shape, order="C": _unravel_index(indices, shape, order),
+    rnp.cumsum: lambda a, axis=None, dtype=None, out=None: _cumsum(a, axis),
 }
 
 
